@@ -545,7 +545,7 @@ func readContractLines(path string) ([]string, []int, error) {
 }
 
 var clauseKeywords = map[string]bool{
-	"func": true, "spec": true, "pureany": true, "lemma": true, "axiom": true, "pureiface": true,
+	"func": true, "spec": true, "pureany": true, "purefunc": true, "lemma": true, "axiom": true, "pureiface": true,
 	"props": true, "requires": true, "ensures": true, "let": true, "loop": true, "assigns": true,
 	"pure": true, "functional": true, "inline": true, "trusted": true, "callback": true, "ghost": true, "on": true,
 	"maypanic": true, "attr": true, "assume": true, "package": true, "nobody": true, "cover": true,
@@ -716,6 +716,13 @@ func (cs *ContractSet) LoadFile(path, pkgPath string, isSpec bool) error {
 			// pureany Method resulttype
 			mn, rt := firstWord(rest)
 			cs.PureAny[mn] = rt
+			cur = nil
+		case "purefunc":
+			// purefunc Field [Field ...]: function-typed values stored in a field / variable of that
+			// name are assumed not to write caller-visible memory (an assumption, listed in evidence)
+			for _, f := range strings.Fields(rest) {
+				cs.PureIface["purefunc:"+f] = true
+			}
 			cur = nil
 		case "lemma", "axiom":
 			lab, body := splitLabel(rest)
